@@ -67,7 +67,7 @@ def cmd_run(i, checks, overlay=False):
     """overlay=True leaves /repo untouched (the patched files are compiled in through go's -overlay): for use
     while other runs are building from /repo."""
     d = seeded(i); meta = json.load(open(os.path.join(d, "meta.json")))
-    if not checks: checks = [meta["property"]]
+    if not checks: checks = meta.get("checks") or [meta["property"]]
     ovdir = None
     if overlay:
         import re
